@@ -75,5 +75,31 @@ func genOutput() {
 	}
 	l.strList("prefixWriteCalls", calls("prefixWriter.Write"))
 	l.strList("prefixCloseCalls", calls("prefixWriter.close"))
+	// the stdout and stderr writers WrapWriter hands out are one object (one line / group buffer, flushed by the one close)
+	sameWriter := func(fn string) string {
+		fd := p.funcDecl(fn)
+		if fd == nil || fd.Body == nil {
+			return "MISSING " + fn
+		}
+		res := "no-return"
+		ast.Inspect(fd.Body, func(n ast.Node) bool {
+			if _, ok := n.(*ast.FuncLit); ok {
+				return false
+			}
+			if r, ok := n.(*ast.ReturnStmt); ok && len(r.Results) == 3 {
+				a, aok := r.Results[0].(*ast.Ident)
+				b, bok := r.Results[1].(*ast.Ident)
+				if aok && bok && a.Name == b.Name {
+					res = "same"
+				} else {
+					res = "different"
+				}
+			}
+			return true
+		})
+		return res
+	}
+	l.str("prefixedWrapWriters", sameWriter("Prefixed.WrapWriter"))
+	l.str("groupWrapWriters", sameWriter("Group.WrapWriter"))
 	l.write()
 }
